@@ -6,6 +6,13 @@ RULE = ("hostile byte streams through the real BMP connection handler: valid mul
         "larger than the data, every message type carrying arbitrary payload bytes, pure random bytes; read errors of every io::ErrorKind class "
         "interleaved; end of file or unit shutdown at the end; bytes handed out in random chunk sizes. Observable = panicked / wedged / stuck?, "
         "what ended the reads, how many read events were consumed, shape of the final cleanup (and the full update trace where every frame is known). "
+        "A second family of cases (1 200 quick / 30 000 thorough) is structurally valid: Initiation, Peer Ups with and without the Graceful Restart capability, "
+        "Route Monitoring messages whose UPDATE octets come from C04's proved encoder (oracle c04enc: announcements / withdrawals of the four families, "
+        "End-of-RIB forms, unknown AFI/SAFIs, and the degenerate-but-valid shapes: MP_REACH_NLRI without NLRI alone / next to withdrawals / of an unknown family, "
+        "MP_UNREACH_NLRI without NLRI, attributes only, the empty UPDATE), statistics, peer downs, termination, bursts of 5-14 messages the state machine "
+        "rejects (more than the 10 recent parse errors the router's page keeps); one in five then gets a byte mutation. An HTTP client (op G: GET router list, "
+        "GET the router's page, render the metrics, through the real request processors) visits after the last byte, between messages or anywhere: expected "
+        "a page each time, listing min(#rejected, 10) parse errors oldest first - never a panic. "
         "A case is non-trivial when at least one complete header was read and the stream is not a pristine valid one; distinct = distinct case text")
 
 
@@ -274,7 +281,9 @@ ENGINES = [{"name": "bstream", "gen": gen_all, "corpus": corpus, "nontrivial": n
 LEVEL_TEXT = ("Theorems over ALL scripts of read events and every parser, for the model of the BMP connection handler (framing, is_fatal table, read loop, "
               "message dispatch): no panic site is reachable in the repaired code; the read loop terminates on every script (end of file ends the session "
               "instead of being re-read); every connection ends in the post-loop cleanup; it ends only for end of file, unit shutdown, a fatal error kind or "
-              "a length field smaller than the header - never for content the parser or state machine rejects; where it ends is independent of the parser. "
+              "a length field smaller than the header - never for content the parser or state machine rejects; where it ends is independent of the parser; "
+              "the recent-parse-errors buffer (a Vec and an index, as written) answers get() for every history of pushes with the last 10 entries in arrival "
+              "order, so the router's page requested after any k read events of any script is a page with at most 10 entries (never a panic). "
               "Kernel-checked, axiom-free. The code before the repair: refuted by a 5-byte header with length < 5 (reproduced on the real code: panic at "
               "io.rs `&mut msg_buf[5..]`), and proved to have no other panic. Tied to the real read_from_router by thousands of hostile streams per run, each "
               "in its own task with a wedge/stuck watchdog.")
